@@ -54,7 +54,19 @@ type Act struct {
 	// (the lookup returns the context's error); the others, with healthy contexts,
 	// must still be served
 	LeaderDeadline bool `json:"leaderDeadline,omitempty"`
+	// LeaderAtBody: the leader's deadline expires later, while it reads the body
+	// of the token response (headers already received)
+	LeaderAtBody bool `json:"leaderAtBody,omitempty"`
 }
+
+type doomAtBodyKey struct{}
+
+// stallBody delivers nothing until the request's context is done, then fails with
+// the context's error (what net/http does to a body whose request is cancelled).
+type stallBody struct{ ctx context.Context }
+
+func (b stallBody) Read([]byte) (int, error) { <-b.ctx.Done(); return 0, b.ctx.Err() }
+func (b stallBody) Close() error             { return nil }
 
 // Case is one world plus a history.
 type Case struct {
@@ -136,6 +148,7 @@ func genCase(t *rapid.T) Case {
 			a.K = rapid.IntRange(2, 8).Draw(t, "k")
 			a.Mixed = rapid.IntRange(0, 2).Draw(t, "mixed") == 0
 			a.LeaderDeadline = !a.Mixed && rapid.IntRange(0, 3).Draw(t, "leaderDeadline") == 0
+			a.LeaderAtBody = a.LeaderDeadline && rapid.Bool().Draw(t, "leaderAtBody")
 		default:
 			a.Kind = "expire"
 		}
@@ -418,7 +431,11 @@ func (w *world) RoundTrip(req *http.Request) (*http.Response, error) {
 		}
 		w.mu.Lock()
 		defer w.mu.Unlock()
-		return w.token(req, body), nil
+		rs := w.token(req, body)
+		if req.Context().Value(doomAtBodyKey{}) != nil && rs.StatusCode == 200 {
+			rs.Body = stallBody{req.Context()}
+		}
+		return rs, nil
 	}
 	defer w.mu.Unlock()
 	r := w.regs[host]
@@ -659,7 +676,7 @@ func runInner(c Case) (res vt.Result, fail *vt.Fail) {
 		cl.Cache = nil
 	}
 	cl.Credential = func(ctx context.Context, hostport string) (auth.Credential, error) {
-		if _, doomed := ctx.Deadline(); doomed {
+		if _, doomed := ctx.Deadline(); doomed && ctx.Value(doomAtBodyKey{}) == nil {
 			// a slow credential store: the caller's deadline passes first
 			<-ctx.Done()
 			return auth.EmptyCredential, ctx.Err()
@@ -688,6 +705,9 @@ func runInner(c Case) (res vt.Result, fail *vt.Fail) {
 		ctx := context.WithValue(context.Background(), callIDKey{}, id)
 		if a.LeaderDeadline && leader[id] {
 			var cancel context.CancelFunc
+			if a.LeaderAtBody {
+				ctx = context.WithValue(ctx, doomAtBodyKey{}, true)
+			}
 			ctx, cancel = context.WithTimeout(ctx, 15*time.Millisecond)
 			defer cancel()
 		}
@@ -859,6 +879,15 @@ func runInner(c Case) (res vt.Result, fail *vt.Fail) {
 					res.Classes = append(res.Classes, "burst-with-different-scope-sets-at-enforcing-registry-cache-"+c.Cache)
 					if tokFetches >= 2 {
 						mixedOverlap = true
+					}
+				}
+			}
+			if a.LeaderAtBody {
+				// the doomed caller's own fetch does not count
+				for id, n := range perCallTok {
+					if leader[id] {
+						tokFetches -= n
+						res.Classes = append(res.Classes, "leader-deadline-expired-in-token-body")
 					}
 				}
 			}
